@@ -32,7 +32,7 @@ def main():
         val = nf(*pt)
         print('%s%r = %r' % (name, tuple(pt), val))
         bad = 0 if math.isfinite(val) else 1
-        if len(pt) == 6:
+        if len(pt) == 6 or sig == 'dddd':
             def coupled(v, base, d):
                 v[1] = base[1] * (1 + d)
             msg = C11b.probe(name, nf, pt, 0, coupled)
